@@ -35,6 +35,89 @@ pub proof fn lemma_adaptive_rate_bounds(c: AdaptiveFeeConstants, v: AdaptiveFeeV
     }
 }
 
+/// reachable-state bound: the reference group lies inside the tick range (it is always the group of an in-range tick)
+pub open spec fn ref_ok(c: AdaptiveFeeConstants, v: AdaptiveFeeVariables) -> bool {
+    -443637 - (c.tick_group_size as int) < (v.tick_group_index_reference as int) * (c.tick_group_size as int) <= 443636
+}
+/// FeeRateManager::new for an adaptive pool (None = InvalidTimestamp): tick group of the current tick, reference updated by the
+/// filter/decay/reset rules, and the core range outside of which the accumulator is saturated
+pub open spec fn new_spec(a_to_b: bool, current_tick_index: i32, timestamp: u64, static_fee_rate: u16, info: AdaptiveFeeInfo) -> Option<FeeRateManager> {
+    let c = info.constants; let gs = c.tick_group_size as int;
+    let g = current_tick_index as int / gs;
+    match reference_after(info.variables, g as i32, timestamp, c) {
+        None => None,
+        Some(v) => {
+            let d = div_round(c.max_volatility_accumulator as int - v.volatility_reference as int, 10_000, true);
+            let lo_idx = v.tick_group_index_reference as int - d; let hi_idx = v.tick_group_index_reference as int + d;
+            let lo_tick = lo_idx * gs; let hi_tick = hi_idx * gs + gs;
+            Some(FeeRateManager::Adaptive { a_to_b, tick_group_index: g as i32, static_fee_rate, adaptive_fee_constants: c, adaptive_fee_variables: v,
+                core_tick_group_range_lower_bound: if lo_tick > -443636 { Some((lo_idx as i32, price_at(lo_tick) as u128)) } else { None },
+                core_tick_group_range_upper_bound: if hi_tick < 443636 { Some((hi_idx as i32, price_at(hi_tick) as u128)) } else { None } })
+        }
+    }
+}
+pub proof fn lemma_group_bound(t: int, gs: int)
+    requires -443637 <= t <= 443636, 1 <= gs <= 0xFFFF,
+    ensures -443637 <= t / gs <= 443636, -443637 - gs < (t / gs) * gs <= t, -443638 <= t / gs - 1,
+{
+    vstd::arithmetic::div_mod::lemma_fundamental_div_mod(t, gs); vstd::arithmetic::div_mod::lemma_mod_bound(t, gs);
+    let q = t / gs;
+    assert(gs * q == q * gs) by(nonlinear_arith);
+    assert(q <= 443636) by(nonlinear_arith) requires gs * q <= 443636, gs >= 1;
+    assert(q >= -443637) by(nonlinear_arith) requires gs * q > -443637 - gs, gs >= 1;
+}
+/// Rust's truncating % agrees with divisibility, and on a multiple the truncating / is the exact quotient
+pub proof fn lemma_trunc_rem(t: i32, gs: i32)
+    requires 1 <= gs <= 0xFFFF, -443637 <= t <= 443636,
+    ensures (vstd::arithmetic::div_mod::rust_rem(t as int, gs as int) == 0) <==> ((t as int) % (gs as int) == 0),
+        ((t as int) % (gs as int) == 0) ==> vstd::arithmetic::div_mod::rust_div(t as int, gs as int) == (t as int) / (gs as int),
+{
+    let a = t as int; let b = gs as int;
+    vstd::arithmetic::div_mod::lemma_fundamental_div_mod(a, b); vstd::arithmetic::div_mod::lemma_mod_bound(a, b);
+    if a < 0 {
+        vstd::arithmetic::div_mod::lemma_fundamental_div_mod(-a, b); vstd::arithmetic::div_mod::lemma_mod_bound(-a, b);
+        let q = (-a) / b; let m = (-a) % b;
+        if m == 0 {
+            assert(a == b * (-q) + 0) by(nonlinear_arith) requires -a == b * q + m, m == 0;
+            vstd::arithmetic::div_mod::lemma_fundamental_div_mod_converse(a, b, -q, 0);
+        } else {
+            assert(a == b * (-q - 1) + (b - m)) by(nonlinear_arith) requires -a == b * q + m;
+            vstd::arithmetic::div_mod::lemma_fundamental_div_mod_converse(a, b, -q - 1, b - m);
+        }
+    }
+}
+/// the last tick group the price moved through when a swap step ends at `sqrt_price`
+pub open spec fn skip_last_group(sqrt_price: int, next_tick_sqrt_price: int, next_tick_index: int, gs: int, a_to_b: bool) -> int {
+    let tick_index = if sqrt_price == next_tick_sqrt_price { next_tick_index } else { tick_of(sqrt_price) };
+    let on_boundary = tick_index % gs == 0 && (sqrt_price == next_tick_sqrt_price || sqrt_price == price_at(tick_index));
+    if on_boundary && !a_to_b { tick_index / gs - 1 } else { tick_index / gs }
+}
+/// the core range arithmetic of FeeRateManager::new stays inside i32 and its bound ticks inside the tick range
+pub proof fn lemma_core_range(c: AdaptiveFeeConstants, v: AdaptiveFeeVariables)
+    requires c.wf(), v.volatility_reference <= c.max_volatility_accumulator, ref_ok(c, v),
+    ensures ({
+        let gs = c.tick_group_size as int;
+        let d = div_round(c.max_volatility_accumulator as int - v.volatility_reference as int, 10_000, true);
+        let r = v.tick_group_index_reference as int;
+        0 <= d <= 429_497 && d * gs <= 429_497 + 0xFFFF && -2_000_000 <= r - d && r + d <= 2_000_000
+        && -1_100_000 <= (r - d) * gs <= 443636 && -443636 <= (r + d) * gs + gs <= 1_100_000
+        && -GROUP_BOUND() < r < GROUP_BOUND()
+    }),
+{
+    let gs = c.tick_group_size as int; let n = c.max_volatility_accumulator as int - v.volatility_reference as int;
+    let r = v.tick_group_index_reference as int;
+    crate::int_division_math::lemma_ceil(n, 10_000);
+    vstd::arithmetic::div_mod::lemma_fundamental_div_mod(n, 10_000); vstd::arithmetic::div_mod::lemma_mod_bound(n, 10_000);
+    let d = div_round(n, 10_000, true);
+    assert(d <= n / 10_000 + 1);
+    let m = c.max_volatility_accumulator as int;
+    assert((n / 10_000) * gs <= 429_497) by(nonlinear_arith) requires n == 10_000 * (n / 10_000) + n % 10_000, n % 10_000 >= 0, n <= m, m * gs <= 0xFFFF_FFFF, gs >= 1, n / 10_000 >= 0;
+    assert(d * gs <= (n / 10_000) * gs + gs) by(nonlinear_arith) requires d <= n / 10_000 + 1, gs >= 1;
+    assert(d <= d * gs) by(nonlinear_arith) requires d >= 0, gs >= 1;
+    assert((r - d) * gs == r * gs - d * gs) by(nonlinear_arith);
+    assert((r + d) * gs == r * gs + d * gs) by(nonlinear_arith);
+    assert(-GROUP_BOUND() < r < GROUP_BOUND()) by(nonlinear_arith) requires -443637 - gs < r * gs <= 443636, 1 <= gs <= 0xFFFF;
+}
 impl FeeRateManager {
     pub open spec fn wf(&self) -> bool {
         match *self {
@@ -112,16 +195,60 @@ impl FeeRateManager {
     proof { axiom_price_at(); }
 //@ end
 
-//@ assume FeeRateManager::new and advance_tick_group_after_skip (adaptive bookkeeping; i32 tick-group arithmetic) are external stubs: new returns the Static manager when no adaptive-fee info is given and some well-formed manager otherwise; the skip bookkeeping keeps the manager well formed
-//@ fn manager/fee_rate_manager.rs new in=/^impl FeeRateManager \{/ -> r stub
-    requires static_fee_rate <= 60_000,
+//@ fn manager/fee_rate_manager.rs new in=/^impl FeeRateManager \{/ -> r
+    requires static_fee_rate <= 60_000, -443637 <= current_tick_index <= 443636,
+        *adaptive_fee_info matches Some(info) ==> inv14(info.constants, info.variables) && ref_ok(info.constants, info.variables),
     ensures
         *adaptive_fee_info is None ==> (r matches Ok(m) && m == (FeeRateManager::Static { static_fee_rate })),
+        *adaptive_fee_info matches Some(info) ==> (match new_spec(a_to_b, current_tick_index, timestamp, static_fee_rate, info) {
+            None => r == err::<FeeRateManager>(ErrorCode::InvalidTimestamp),
+            Some(m) => r == Ok::<FeeRateManager, Error>(m),
+        }),
         r matches Ok(m) ==> m.wf() && (m is Static <==> *adaptive_fee_info is None),
+//@ inject after /let mut adaptive_fee_variables = adaptive_fee_info.variables;/
+                proof {
+                    let gs = adaptive_fee_info.constants.tick_group_size as int; let t = current_tick_index as int;
+                    vstd::arithmetic::div_mod::lemma_fundamental_div_mod(t, gs); vstd::arithmetic::div_mod::lemma_mod_bound(t, gs);
+                    assert(gs * (t / gs) == (t / gs) * gs) by(nonlinear_arith);
+                    lemma_group_bound(t, gs);
+                }
+//@ inject before /let max_volatility_accumulator_tick_group_index_delta =/
+                proof {
+                    let c = adaptive_fee_constants; let v = adaptive_fee_variables;
+                    assert(reference_after(adaptive_fee_info.variables, tick_group_index, timestamp, c) == Some(v));
+                    lemma_core_range(c, v);
+                }
 //@ end
-//@ fn manager/fee_rate_manager.rs advance_tick_group_after_skip in=/^impl FeeRateManager \{/ -> r stub
-    requires old(self).wf(), *old(self) is Adaptive,
-    ensures r is Ok ==> final(self).wf() && *final(self) is Adaptive,
+//@ fn manager/fee_rate_manager.rs advance_tick_group_after_skip in=/^impl FeeRateManager \{/ -> r
+    requires old(self).wf(), *old(self) is Adaptive, price_ok(sqrt_price as int), price_ok(next_tick_sqrt_price as int), -443637 <= next_tick_index <= 443636,
+        *old(self) matches FeeRateManager::Adaptive { tick_group_index, .. } ==> -GROUP_BOUND() + 1 < tick_group_index < GROUP_BOUND() - 1,
+    ensures
+        r is Ok, *final(self) is Adaptive, final(self).wf(),
+        // nothing but the tick group and the accumulator changes
+        old(self)->a_to_b == final(self)->a_to_b, old(self)->Adaptive_static_fee_rate == final(self)->Adaptive_static_fee_rate,
+        old(self)->adaptive_fee_constants == final(self)->adaptive_fee_constants,
+        old(self)->core_tick_group_range_lower_bound == final(self)->core_tick_group_range_lower_bound, old(self)->core_tick_group_range_upper_bound == final(self)->core_tick_group_range_upper_bound,
+        final(self)->adaptive_fee_variables == (AdaptiveFeeVariables { volatility_accumulator: final(self)->adaptive_fee_variables.volatility_accumulator, ..old(self)->adaptive_fee_variables }),
+        // the tick group the price stopped in (a price exactly on a group boundary belongs to the group below when moving up); the manager moves there only
+        // in the trade direction, refreshes the accumulator for that group, and then steps one group further for the next loop iteration
+        ({
+            let gs = old(self)->adaptive_fee_constants.tick_group_size as int; let a_to_b = old(self)->a_to_b; let g0 = old(self)->tick_group_index as int;
+            let last = skip_last_group(sqrt_price as int, next_tick_sqrt_price as int, next_tick_index as int, gs, a_to_b);
+            let moved = if a_to_b { last < g0 } else { last > g0 };
+            final(self)->tick_group_index as int == (if moved { last } else { g0 }) + (if a_to_b { -1int } else { 1int })
+            && final(self)->adaptive_fee_variables.volatility_accumulator as int == (if moved { accumulator_at(old(self)->adaptive_fee_variables, last, old(self)->adaptive_fee_constants) } else { old(self)->adaptive_fee_variables.volatility_accumulator as int })
+        }),
+//@ inject at /^\{/
+    proof {
+        axiom_price_at();
+        if let FeeRateManager::Adaptive { adaptive_fee_constants, .. } = *old(self) {
+            let gs = adaptive_fee_constants.tick_group_size as int;
+            lemma_group_bound(next_tick_index as int, gs);
+            lemma_trunc_rem(next_tick_index, adaptive_fee_constants.tick_group_size as i32);
+        }
+    }
+//@ inject after /let tick_index = tick_index_from_sqrt_price\(&sqrt_price\);/
+                    proof { lemma_trunc_rem(tick_index, adaptive_fee_constants.tick_group_size as i32); lemma_group_bound(tick_index as int, adaptive_fee_constants.tick_group_size as int); }
 //@ end
 //@ fn manager/fee_rate_manager.rs update_major_swap_timestamp in=/^impl FeeRateManager \{/ -> r
     requires old(self).wf(), price_ok(pre_sqrt_price as int), price_ok(post_sqrt_price as int),
